@@ -404,3 +404,19 @@ func TestF19_PointerToOperationResponse(t *testing.T) {
 		}
 	}
 }
+
+// F22 candidate (C03): the inline complex schema of a path-level body parameter of a path item that declares
+// no operation gets no name (names are derived from the operations of the path) and stays inline after a full flatten.
+func TestF22_PathLevelParamWithoutOperation(t *testing.T) {
+	doc := `{"swagger":"2.0","info":{"title":"t","version":"1"},"paths":{
+	 "/a":{"parameters":[{"name":"body","in":"body","schema":{"type":"object","properties":{"x":{"type":"string"}}}}]},
+	 "/b":{"get":{"responses":{"200":{"description":"ok"}}}}}}`
+	sw := load(t, doc)
+	if err := analysis.Flatten(analysis.FlattenOpts{Spec: analysis.New(sw), BasePath: "/tmp/x.json", Minimal: false}); err != nil {
+		t.Fatalf("flatten: %v", err)
+	}
+	if sch := sw.Paths.Paths["/a"].Parameters[0].Schema; sch.Ref.String() == "" {
+		b, _ := json.Marshal(sw)
+		t.Errorf("the object schema of the path-level parameter is still inline after a full flatten: %.300s", b)
+	}
+}
